@@ -52,6 +52,18 @@ pub struct Case {
     pub op: OpSpec,
     pub answer: Answer,
     pub through_bridge: bool,
+    /// calls the same app made (and had answered) on the same core before this one, oldest first:
+    /// every one of them is judged like the last, so a case is a short history - whatever a call
+    /// leaves behind in the capability for a later one shows in a replayable case
+    #[serde(default)]
+    pub earlier: Vec<Step>,
+}
+
+#[derive(Debug, Clone, PartialEq, Eq, Hash, Serialize, Deserialize)]
+pub struct Step {
+    pub api: Api,
+    pub op: OpSpec,
+    pub answer: Answer,
 }
 
 /// what the app is told, in a serializable form
@@ -175,13 +187,18 @@ fn opts() -> impl bincode::Options + Copy {
     bincode::DefaultOptions::new().with_fixint_encoding().allow_trailing_bytes()
 }
 
-pub fn run(c: &Case) -> Result<bool, String> {
-    let Some((response, want_told)) = response_and_expectation(&c.op, &c.answer) else { return Ok(false) };
-    let want_op = expected_operation(&c.op);
-    let told: Vec<Told> = catch(|| -> Result<Vec<Told>, String> {
-        if c.through_bridge {
-            let bridge: Bridge<App> = Bridge::new(Core::new());
-            let out = bridge.process_event(&opts().serialize(&Event::Run(c.api, c.op.clone())).unwrap()).map_err(|e| e.to_string())?;
+enum Host {
+    Bridge(Bridge<App>),
+    Core(Core<App>),
+}
+
+/// one call and its answer on the given host; `told_before` = how many outcomes the app has been told so far
+fn step(host: &Host, api: Api, op: &OpSpec, answer: &Answer, told_before: usize) -> Result<bool, String> {
+    let Some((response, want_told)) = response_and_expectation(op, answer) else { return Ok(false) };
+    let want_op = expected_operation(op);
+    let told: Vec<Told> = match host {
+        Host::Bridge(bridge) => {
+            let out = bridge.process_event(&opts().serialize(&Event::Run(api, op.clone())).unwrap()).map_err(|e| e.to_string())?;
             let reqs: Vec<BridgeRequest<EffectFfi>> = opts().deserialize(&out).map_err(|e| format!("requests do not decode: {e}"))?;
             let kv: Vec<(u32, KeyValueOperation)> = reqs.into_iter().filter_map(|r| if let EffectFfi::KeyValue(op) = r.effect { Some((r.id.0, op)) } else { None }).collect();
             if kv.len() != 1 {
@@ -191,10 +208,10 @@ pub fn run(c: &Case) -> Result<bool, String> {
                 return Err(format!("the shell received {:?}, the app asked for {:?}", kv[0].1, want_op));
             }
             bridge.handle_response(kv[0].0, &opts().serialize(&response).unwrap()).map_err(|e| format!("the response was rejected: {e}"))?;
-            opts().deserialize(&bridge.view().map_err(|e| e.to_string())?).map_err(|e| format!("view does not decode: {e}"))
-        } else {
-            let core: Core<App> = Core::new();
-            let effs = core.process_event(Event::Run(c.api, c.op.clone()));
+            opts().deserialize(&bridge.view().map_err(|e| e.to_string())?).map_err(|e| format!("view does not decode: {e}"))?
+        }
+        Host::Core(core) => {
+            let effs = core.process_event(Event::Run(api, op.clone()));
             let mut kv: Vec<crux_core::Request<KeyValueOperation>> = effs.into_iter().filter_map(|e| if let Effect::KeyValue(r) = e { Some(r) } else { None }).collect();
             if kv.len() != 1 {
                 return Err(format!("{} key-value operations reached the shell, expected exactly one", kv.len()));
@@ -206,14 +223,30 @@ pub fn run(c: &Case) -> Result<bool, String> {
             if more.iter().any(|e| matches!(e, Effect::KeyValue(_))) {
                 return Err("a further key-value operation was emitted after the response".into());
             }
-            Ok(core.view())
+            core.view()
         }
-    })
-    .map_err(|m| format!("panic: {m}"))??;
-    if told != vec![want_told.clone()] {
-        return Err(format!("the shell answered {response:?}; the app was told {told:?}, expected exactly [{want_told:?}]"));
+    };
+    if told.len() < told_before || told[told_before..] != [want_told.clone()] {
+        return Err(format!("the shell answered {response:?}; the app was told {:?}, expected exactly [{want_told:?}]{}", &told[told_before.min(told.len())..], if told_before > 0 { format!(" (call {} of a history on one core)", told_before + 1) } else { String::new() }));
     }
     Ok(true)
+}
+
+pub fn run(c: &Case) -> Result<bool, String> {
+    if response_and_expectation(&c.op, &c.answer).is_none() {
+        return Ok(false);
+    }
+    catch(|| -> Result<bool, String> {
+        let host = if c.through_bridge { Host::Bridge(Bridge::new(Core::new())) } else { Host::Core(Core::new()) };
+        let mut told = 0;
+        for e in &c.earlier {
+            if step(&host, e.api, &e.op, &e.answer, told)? {
+                told += 1;
+            }
+        }
+        step(&host, c.api, &c.op, &c.answer, told)
+    })
+    .map_err(|m| format!("panic: {m}"))?
 }
 
 fn keys() -> BoxedStrategy<String> {
@@ -226,7 +259,7 @@ fn cursors() -> BoxedStrategy<u64> {
     prop_oneof![Just(0u64), Just(1u64), Just(u64::MAX), any::<u64>()].boxed()
 }
 
-pub fn strategy() -> BoxedStrategy<Case> {
+fn one_step() -> BoxedStrategy<Step> {
     let op = prop_oneof![
         keys().prop_map(|key| OpSpec::Get { key }),
         (keys(), values()).prop_map(|(key, value)| OpSpec::Set { key, value }),
@@ -235,15 +268,53 @@ pub fn strategy() -> BoxedStrategy<Case> {
         (keys(), cursors()).prop_map(|(prefix, cursor)| OpSpec::ListKeys { prefix, cursor }),
     ];
     let api = prop_oneof![Just(Api::Capability), Just(Api::CapabilityAsync), Just(Api::Command)];
-    (api, op, any::<bool>())
-        .prop_flat_map(|(api, op, through_bridge)| {
+    (api, op)
+        .prop_flat_map(|(api, op)| {
             let matching: BoxedStrategy<Answer> = match &op {
                 OpSpec::Exists { .. } => any::<bool>().prop_map(|is_present| Answer::Present { is_present }).boxed(),
                 OpSpec::ListKeys { .. } => (prop::collection::vec(keys(), 0..4), cursors()).prop_map(|(keys, next_cursor)| Answer::Keys { keys, next_cursor }).boxed(),
                 _ => proptest::option::weighted(0.7, values()).prop_map(|value| Answer::Data { value }).boxed(),
             };
             let answer = prop_oneof![6 => matching, 1 => keys().prop_map(|message| Answer::Io { message }), 1 => Just(Answer::Timeout), 1 => Just(Answer::CursorNotFound), 1 => keys().prop_map(|message| Answer::Other { message })];
-            answer.prop_map(move |answer| Case { api, op: op.clone(), answer, through_bridge })
+            answer.prop_map(move |answer| Step { api, op: op.clone(), answer })
+        })
+        .boxed()
+}
+
+/// a history: 1-4 calls on one core, the later ones often of the first one's kind with a key / cursor the
+/// history has already seen (pages of one listing, a value read back, a cursor the shell repeats)
+pub fn strategy() -> BoxedStrategy<Case> {
+    let related = |first: Step| {
+        prop::collection::vec((one_step(), any::<bool>(), any::<bool>()), 0..4).prop_map(move |more| {
+            let mut steps = vec![first.clone()];
+            for (mut s, same_kind, same_api) in more {
+                if same_api {
+                    s.api = first.api;
+                }
+                if same_kind {
+                    if let (OpSpec::ListKeys { prefix, .. }, Answer::Keys { next_cursor, keys }) = (&first.op, &first.answer) {
+                        // the next page of the same listing, or the same page again
+                        s.op = OpSpec::ListKeys { prefix: prefix.clone(), cursor: *next_cursor };
+                        if !matches!(s.answer, Answer::Keys { .. }) {
+                            s.answer = Answer::Keys { keys: keys.clone(), next_cursor: *next_cursor };
+                        }
+                    }
+                }
+                steps.push(s);
+            }
+            steps
+        })
+    };
+    (one_step(), any::<bool>(), proptest::bool::weighted(0.3))
+        .prop_flat_map(move |(first, through_bridge, history)| {
+            if history {
+                related(first).prop_map(move |mut steps| {
+                    let last = steps.pop().unwrap();
+                    Case { api: last.api, op: last.op, answer: last.answer, through_bridge, earlier: steps }
+                }).boxed()
+            } else {
+                Just(Case { api: first.api, op: first.op, answer: first.answer, through_bridge, earlier: vec![] }).boxed()
+            }
         })
         .boxed()
 }
@@ -280,6 +351,8 @@ pub fn main(mode: Mode) {
                     OpSpec::ListKeys { .. } => "op:list",
                 },
                 if matches!(c.answer, Answer::Data { .. } | Answer::Present { .. } | Answer::Keys { .. }) { "answer:ok" } else { "answer:error" },
+                match c.earlier.len() { 0 => "history:1-call", 1 => "history:2-calls", _ => "history:3-4-calls" },
+                if c.earlier.iter().any(|e| matches!((&e.answer, &c.op), (Answer::Keys { next_cursor, .. }, OpSpec::ListKeys { cursor, .. }) if next_cursor == cursor && *cursor != 0)) { "history:next-page-of-an-earlier-listing" } else { "history:unrelated" },
             ],
         );
         if nt && stats.wants_sample() {
